@@ -554,8 +554,241 @@ def oracleC15 (lines : List String) : OResult :=
     { res with pattern := "F-C12-1" }
   else res
 
-def oracle (prop : String) (lines : List String) : OResult :=
+/-! ### C02 -/
+
+structure C02Dir where
+  writer : Nat × Nat            -- (host, slot)
+  reader : Nat × Nat
+  accepted : String := ""
+  readLog : String := ""
+  eof : Bool := false
+  closedByWriter : Bool := false
+  reset : Bool := false
+  lastSendStep : Nat := 0          -- step of the writer's last accepted write / close
+  lastReadStep : Nat := 0          -- step of the reader's last read with a non-empty buffer
+  lastReadPending : Bool := false  -- … and whether it found nothing
+
+structure C02St where
+  client : Option (Nat × Nat) := none
+  server : Option (Nat × Nat) := none
+  dirs : List C02Dir := []
+  step : Nat := 0
+  held : Bool := false
+  partitioned : Bool := false
+  lastReleaseStep : Nat := 0
+  res : OResult := {}
+
+def C02St.fail (st : C02St) (ln : Nat) (msg : String) : C02St :=
+  if st.res.ok then { st with res := { ok := false, line := ln, detail := msg } } else st
+
+def c02Init (st : C02St) : C02St :=
+  match st.client, st.server with
+  | some c, some s => if st.dirs.isEmpty then { st with dirs := [{ writer := c, reader := s }, { writer := s, reader := c }] } else st
+  | _, _ => st
+
+def c02Upd (st : C02St) (p : C02Dir → Bool) (f : C02Dir → C02Dir) : C02St :=
+  { st with dirs := st.dirs.map (fun d => if p d then f d else d) }
+
+def slotTok (t : String) : Nat := (t.drop 1).toNat?.getD 0
+
+def c02Step (st : C02St) (x : Nat × List String × List String) : C02St :=
+  let (ln, op, obs) := x
+  match op with
+  | ["ctl", "step"] => { st with step := st.step + 1 }
+  | ["ctl", "hold", _, _] => { st with held := true }
+  | [_, "net_hold", _, _] => { st with held := true }
+  | ["ctl", "release", _, _] => { st with held := false, lastReleaseStep := st.step }
+  | [_, "net_release", _, _] => { st with held := false, lastReleaseStep := st.step }
+  | ["ctl", "partition", _, _] => { st with partitioned := true }
+  | ["ctl", "partition1", _, _] => { st with partitioned := true }
+  | ["ctl", "crash", _] => { st with partitioned := true }
+  | [h, "tcp_connect", s, _] =>
+    c02Init (if st.client.isNone then { st with client := some (hostTok h, slotTok s) } else st)
+  | [h, "tcp_accept", _, s] =>
+    if obs.head? == some "ok" && st.server.isNone then c02Init { st with server := some (hostTok h, slotTok s) } else st
+  | [h, w, s, hex] =>
+    let who := (hostTok h, slotTok s)
+    if w == "tcp_write" || w == "tcp_pwrite" then
+      match obs with
+      | ["ok", n] =>
+        let n := n.toNat?.getD 0
+        let bytes := if hex == "-" then "" else hex
+        c02Upd st (fun d => d.writer == who) (fun d => { d with accepted := d.accepted ++ (String.ofList (bytes.toList.take (2 * n))), lastSendStep := st.step })
+      | _ => st
+    else if w == "tcp_read" || w == "tcp_peek" then
+      let n := hex.toNat?.getD 0
+      match st.dirs.find? (fun d => d.reader == who) with
+      | none => st
+      | some d =>
+        match obs with
+        | ["ok", got] =>
+          let got := if got == "-" then "" else got
+          if w == "tcp_peek" then
+            if (d.readLog ++ got).length ≤ d.accepted.length && d.accepted.startsWith (d.readLog ++ got) then st
+            else st.fail ln s!"peek returned bytes that are not the next bytes of the stream"
+          else
+            let log := d.readLog ++ got
+            let st := if d.accepted.startsWith log then st
+              else st.fail ln s!"bytes read are not a prefix of the bytes written (read so far {log.length / 2} bytes)"
+            let st := if d.eof && got != "" then st.fail ln "data after end-of-file" else st
+            let isEof := got == "" && n > 0
+            let st := if isEof && log.length < d.accepted.length && !d.reset then
+                st.fail ln s!"end-of-file after {log.length / 2} of {d.accepted.length / 2} accepted bytes" else st
+            let lrs := fun (d : C02Dir) => if n > 0 then st.step else d.lastReadStep
+            let lrp := fun (d : C02Dir) => if n > 0 then false else d.lastReadPending
+            c02Upd st (fun d => d.reader == who) (fun d => { d with readLog := log, eof := d.eof || isEof, lastReadStep := lrs d, lastReadPending := lrp d })
+        | ["err", "reset"] => c02Upd st (fun d => d.reader == who) (fun d => { d with reset := true })
+        | ["pending"] =>
+          if w == "tcp_read" && n > 0 then
+            c02Upd st (fun d => d.reader == who) (fun d => { d with lastReadStep := st.step, lastReadPending := true })
+          else st
+        | _ => st
+    else st
+  | [h, "tcp_shutdown", s] =>
+    if obs == ["ok"] then c02Upd st (fun d => d.writer == (hostTok h, slotTok s)) (fun d => { d with closedByWriter := true, lastSendStep := st.step }) else st
+  | [h, "tcp_dropw", s] =>
+    if obs == ["ok"] then c02Upd st (fun d => d.writer == (hostTok h, slotTok s)) (fun d => { d with closedByWriter := true, lastSendStep := st.step }) else st
+  | [h, "tcp_dropr", s] => c02Upd st (fun d => d.reader == (hostTok h, slotTok s)) (fun d => { d with reset := true })
+  | [h, "drop", s] => c02Upd st (fun d => d.reader == (hostTok h, slotTok s) || d.writer == (hostTok h, slotTok s)) (fun d => { d with reset := true })
+  | _ => st
+
+def oracleC02 (lines : List String) (modelCov : List String) : OResult :=
+  let cfgT := match lines.find? (·.startsWith "CFG ") with | some l => toks l | none => []
+  let latSteps := kvNat cfgT "maxlat_ms" 100 / (max 1 (kvNat cfgT "tick_ms" 1)) + 2
+  let st := (opObsPairs lines).foldl c02Step {}
+  let res := st.res
+  -- delivery half: the link stayed healthy, the writer closed gracefully, every latency has
+  -- elapsed, and the reader's latest read (non-empty buffer) found nothing although bytes or the
+  -- end-of-file are still owed: nothing will ever arrive any more.
+  let res := if res.ok && !st.partitioned && !st.held then
+      match st.dirs.find? (fun d => d.closedByWriter && !d.reset && d.lastReadPending &&
+          d.lastReadStep ≥ (max d.lastSendStep st.lastReleaseStep) + latSteps &&
+          (d.readLog != d.accepted || !d.eof)) with
+      | some d =>
+        let msg := if d.readLog != d.accepted then s!"only {d.readLog.length / 2} of {d.accepted.length / 2} accepted bytes were ever read"
+                   else "all bytes were read but end-of-file never arrived"
+        { res with ok := false, detail := s!"h{d.writer.1}->h{d.reader.1}: {msg} although the link is healthy and the reader kept reading" }
+      | none => res
+    else res
+  let cov := (if st.dirs.any (fun d => d.accepted.length > 8) then ["o:bytes"] else []) ++ (if st.dirs.any (·.eof) then ["o:eof"] else [])
+  let res := { res with cov := cov }
+  if !res.ok && modelCov.contains "chanfull" && (res.detail.endsWith "kept reading") then { res with pattern := "F-C02-1" } else res
+
+/-! ### C12 -/
+
+structure C12Conn where
+  host : Nat
+  slot : Nat
+  dst : String
+  loc : Option String := none
+  status : String := "pending"      -- pending | ok | refused | gaveup
+  matched : Bool := false
+
+structure C12St where
+  conns : List C12Conn := []
+  accepts : List (String × String × Bool) := []     -- (local, peer, matched)
+  arrivals : List String := []                      -- SYN source addresses in arrival order at the listener
+  settled : Bool := false
+  res : OResult := {}
+
+def C12St.fail (st : C12St) (ln : Nat) (msg : String) : C12St :=
+  if st.res.ok then { st with res := { ok := false, line := ln, detail := msg } } else st
+
+def c12SetStatus (st : C12St) (h s : Nat) (f : C12Conn → C12Conn) : C12St :=
+  -- the most recent attempt in that slot
+  match (st.conns.reverse.findIdx? (fun c => c.host == h && c.slot == s)) with
+  | none => st
+  | some ri =>
+    let i := st.conns.length - 1 - ri
+    { st with conns := st.conns.mapIdx (fun j c => if j == i then f c else c) }
+
+def c12Result (st : C12St) (ln : Nat) (h s : Nat) (obs : List String) : C12St :=
+  match obs with
+  | ["ok", loc, peer] =>
+    let st := c12SetStatus st h s (fun c => { c with status := "ok", loc := some loc })
+    let dst := match st.conns.reverse.find? (fun c => c.host == h && c.slot == s) with | some c => c.dst | none => ""
+    if peer != dst then st.fail ln s!"connect to {dst} reports peer {peer}" else st
+  | ["err", "refused"] => c12SetStatus st h s (fun c => { c with status := "refused" })
+  | _ => st
+
+def c12Step (st : C12St) (x : Nat × List String × List String) : C12St :=
+  let (ln, op, obs) := x
+  match op with
+  | [h, "tcp_connect", s, dst] =>
+    if obs == ["err", "slotbusy"] then st else
+    let st := { st with conns := st.conns ++ [{ host := hostTok h, slot := slotTok s, dst := dst }] }
+    c12Result st ln (hostTok h) (slotTok s) obs
+  | [h, "tcp_cpoll", s] => c12Result st ln (hostTok h) (slotTok s) obs
+  | [h, "drop", s] =>
+    if obs == ["ok"] then
+      c12SetStatus st (hostTok h) (slotTok s) (fun c => if c.status == "pending" then { c with status := "gaveup" } else c)
+    else st
+  | [_, "tcp_accept", _, _] =>
+    match obs with
+    | ["ok", loc, peer] => { st with accepts := st.accepts ++ [(loc, peer, false)] }
+    | _ => st
+  | ["ctl", "mark", "settled"] => { st with settled := true }
+  | [h, "count"] =>
+    if st.settled then
+      match obs with
+      | "ok" :: kv => if kvGet kv "streams" == some "0" then st
+                      else st.fail ln s!"h{hostTok h} still counts established streams after every stream was dropped: {kv}"
+      | _ => st
+    else st
+  | _ => st
+
+def portOf (a : String) : String := match a.splitOn ":" with | [_, p] => p | _ => ""
+
+def oracleC12 (lines : List String) : OResult :=
+  let pairs := opObsPairs lines
+  let st := pairs.foldl c12Step {}
+  let res := st.res
+  -- (1) every successful connect is matched by exactly one accept with mirrored addresses
+  let (res, accepts) := st.conns.foldl (fun (acc : OResult × List (String × String × Bool)) c =>
+    let (res, accepts) := acc
+    if c.status != "ok" then (res, accepts) else
+    let loc := c.loc.getD ""
+    match accepts.findIdx? (fun a => !a.2.2 && a.2.1 == loc && portOf a.1 == portOf c.dst) with
+    | some i => (res, accepts.mapIdx (fun j a => if j == i then (a.1, a.2.1, true) else a))
+    | none => (if res.ok then { res with ok := false, detail := s!"connect {loc} -> {c.dst} succeeded but no accept returned a stream with that peer" } else res, accepts))
+    (res, st.accepts)
+  -- an accepted stream whose peer matches no connector that could have produced it twice
+  let res := if !res.ok then res else
+    match accepts.find? (fun a => !a.2.2 && st.conns.all (fun c => c.loc != some a.2.1) &&
+        st.conns.all (fun c => c.status == "ok" || c.status == "refused")) with
+    | some a => { res with ok := false, detail := s!"accept returned a stream for peer {a.2.1} that belongs to no connector" }
+    | none => res
+  -- (2) accepted in arrival order
+  let arrivals := lines.filterMap (fun l => match toks l with
+    | ["EV", "delivered", src, dst, "syn"] => if portOf dst == "80" then some src else none
+    | _ => none)
+  let accPeers := st.accepts.map (·.2.1)
+  let res := if res.ok && !isSubseqS accPeers arrivals then
+      { res with ok := false, detail := s!"accept order {accPeers} is not the arrival order {arrivals}" } else res
+  -- (3) nobody hangs: after everything was healed and accepted, no connect is still pending
+  let res := if res.ok && st.settled then
+      match st.conns.find? (fun c => c.status == "pending") with
+      | some c => { res with ok := false, detail := s!"connect from h{c.host} to {c.dst} neither completed nor was refused" }
+      | none => res
+    else res
+  -- (4) connects to a port nobody listens on / an unowned address never succeed
+  let res := if !res.ok then res else
+    match st.conns.find? (fun c => c.status == "ok" && (portOf c.dst != "80" || c.dst.startsWith "x")) with
+    | some c => { res with ok := false, detail := s!"connect to {c.dst} succeeded although nothing listens there" }
+    | none => res
+  { res with cov := (if st.accepts.length ≥ 2 then ["o:accepts"] else []) ++
+                    (if st.conns.any (·.status == "refused") then ["o:refused"] else []) ++
+                    (if st.conns.any (·.status == "gaveup") then ["o:gaveup"] else []) }
+where
+  isSubseqS : List String → List String → Bool
+    | [], _ => true
+    | _ :: _, [] => false
+    | x :: xs, y :: ys => if x == y then isSubseqS xs ys else isSubseqS (x :: xs) ys
+
+def oracle (prop : String) (lines : List String) (modelCov : List String := []) : OResult :=
   match prop with
+  | "C02" => oracleC02 lines modelCov
+  | "C12" => oracleC12 lines
   | "C03" => oracleC03 lines
   | "C08" => oracleC08 lines
   | "C15" => oracleC15 lines
